@@ -32,7 +32,10 @@ MANIFEST = {
             "specification's constants) and D5 (x86-64 ascon_permute: every round block is the specification's "
             "round as a polynomial identity over GF(2) in the 320 state bits, prologue and epilogue are inverse "
             "mappings, so ascon_permute(first_round) is rounds first_round..11 for every state; the masked x86-64 "
-            "permutations are proved under C10.D5); functional correctness of the other ISAs is not decided",
+            "permutations are proved under C10.D5), D5i the same for i386 and D5r for RISC-V 32E/32I/64I, AArch64, ARMv6, "
+            "ARMv6-M, ARMv7-M, Xtensa, m68k and ColdFire (dispatch, prologue/epilogue inverse, every round block = "
+            "specification round under the shared C layout, callee-saved registers / stack pointer / return address "
+            "restored, accesses inside the state and the own frame); the AVR code is decided only by D1/D2",
     "note": "D1 executes the generator programs (code generators, not code under verification) exactly as "
             "`make generate` does and compares text; D2 inspects assembler output with llvm-readelf; D3/D4 "
             "trust the AT&T-syntax model of the ~30 instruction forms the generators emit (anything else is "
